@@ -1,6 +1,6 @@
 (* C16  A trained model is a function of the labelled sample multiset and the seed only. *)
 From Coq Require Import Reals List Permutation.
-From BLE Require Import Num.InstR Model.GMM Model.KMeans Model.Linear Proofs.RLemmas Proofs.GMMLik Proofs.GMMStats Proofs.KMeansR Proofs.LinearR Model.FA Proofs.FAEnroll Proofs.FAAcc Generated.Facts Proofs.FactsDefs Proofs.Rng.
+From BLE Require Import Num.InstR Model.GMM Model.KMeans Model.Linear Proofs.RLemmas Proofs.GMMLik Proofs.GMMStats Proofs.KMeansR Proofs.LinearR Model.FA Proofs.FAEnroll Proofs.FAAcc Proofs.Perm Generated.Facts Proofs.FactsDefs Proofs.Rng.
 Import ListNotations.
 Open Scope R_scope.
 
@@ -23,6 +23,17 @@ Theorem C16_gmm_statistics_invariant_under_row_permutation (nf : nat) (m : MR.gm
   Permutation X X' -> MR.e_step nf m X = MR.e_step nf m X'.
 Proof. exact (e_step_perm nf m X X'). Qed.
 Print Assumptions C16_gmm_statistics_invariant_under_row_permutation.
+
+(* ... and so do whole training runs: same model, same reported values, same number of iterations *)
+Theorem C16_gmm_training_invariant_under_row_permutation cap tr sw eps cthr nf (X X' : list (list R)) mc :
+  Permutation X X' -> MR.fit cap tr sw eps cthr nf [X] mc = MR.fit cap tr sw eps cthr nf [X'] mc.
+Proof. exact (gmm_fit_perm cap tr sw eps cthr nf X X' mc). Qed.
+Print Assumptions C16_gmm_training_invariant_under_row_permutation.
+
+Theorem C16_kmeans_training_invariant_under_row_permutation cap cthr nf cents (X X' : list (list R)) :
+  Permutation X X' -> KR.fit cap cthr nf [X] cents = KR.fit cap cthr nf [X'] cents.
+Proof. exact (kmeans_fit_perm cap cthr nf cents X X'). Qed.
+Print Assumptions C16_kmeans_training_invariant_under_row_permutation.
 
 (* WCCN: class enumeration order, sample order inside classes and label values do not matter *)
 Theorem C16_wccn_invariant_under_class_and_sample_permutation (inv chol : list (list R) -> list (list R)) (D : nat) (cl cl' cl'' : list (list (list R))) :
